@@ -1,6 +1,6 @@
 #!/bin/bash
 # tries every /tmp/seed/out/Cxx/m*/patch.diff (or /verif/seeded/*/patch.diff with arg "kept")
-base=/tmp/seed/out
+base=${SEEDBASE:-/tmp/seed/out}
 for p in $(ls $base/C*/m*/patch.diff 2>/dev/null | sort); do
   id=$(echo $p | sed -E 's#.*/(C[0-9]+)/(m[0-9])/patch.diff#\1-\2#')
   res=$(/verif/tools/try_patch.sh $p 2>&1 | tail -1)
